@@ -24,6 +24,10 @@ def check(ctx):
     # the clock is only ever set to the date of the event about to run (shared instance): a clamped or otherwise derived clock makes the resumed run differ
     from . import c02
     c02.clock(ctx, P, (0, 1))
+    # the loop stops on the clock itself and advances it as the last step of an iteration: after any call the clock stands on the first event not yet run,
+    # whether or not this call ran an event (shared instances, C14)
+    from . import c14
+    c14.loop_guards(ctx, P, (0, 1))
     ctx.assume("no two events coincide (the property's tie-free proviso): the tie-break random_choice is not consumed")
 
 
